@@ -220,7 +220,7 @@ def r4_r5b_on_command(ctx, F):
     blocks = arm_blocks(b, sw, 'CancelTimer')
     bad = [c for c in b.calls if c.bb in blocks and c.is_('Entry::or_insert_with', 'Entry::or_insert', 'HashMap::insert',
                                                           'Entry::or_default', 'Entry::insert_entry')]
-    eff = [c for c in b.calls if c.bb in blocks and c.is_('Entry::and_modify', 'HashMap::remove')]
+    eff = [c for c in b.calls if c.bb in blocks and c.is_('Entry::and_modify', 'HashMap::remove', 'HashMap::get_mut')]
     ctx.check(not bad and len(eff) == 1, 'C17-R5', 'cancel-never-arms', b,
               good='CancelTimer only disarms an existing entry',
               bad='on_command: CancelTimer can create an entry (%s) or does nothing' % [c.short for c in bad])
